@@ -96,3 +96,32 @@ def prefix_independence(oracle, text_with_marker):
     if ga != gb:
         return 'at the end of the body of %r completion offers %s when nothing is typed, and %s when an identifier is being typed there' % (b, sorted(gb), sorted(ga))
     return None
+
+
+# blank expression position right after a binder-bearing statement: every statement kind x every pattern shape (sub-patterns that lowering
+# does not give a source-map entry - literals, the prefix of a string-prefix pattern, discards - included)
+BLANK_PATTERNS = [('v1', ['v1']), ('#(v1, _)', ['v1']), ('[v1, ..v2]', ['v1', 'v2']), ('"pre" <> v1', ['v1']), ('C(v1)', ['v1']), ('#(v1, 1) as v2', ['v1', 'v2']),
+                  ('#("s", v1)', ['v1']), ('[1, v1]', ['v1']), ('C(_)', []), ('_', []), ('1', [])]
+BLANK_STATEMENTS = [('let %s = x', 'let'), ('let assert %s = x', 'let assert'), ('use %s <- g(x)', 'use')]
+
+
+def blank_after_statement(oracle):
+    """-> (programs checked, [problem])"""
+    probs = []; n = 0
+    for pat, binders in BLANK_PATTERNS:
+        for stmt, kind in BLANK_STATEMENTS:
+            for tail in ('', '\n  y'):
+                text = 'type T { C(Int) }\nfn g(a, k) { k(a) }\nfn f(x) {\n  let y = 1\n  %s\n  $0%s\n}\n' % (stmt % pat, tail)
+                n += 1
+                pr = prefix_independence(oracle, text)
+                if pr:
+                    probs.append('after `%s`: %s' % (stmt % pat, pr)); continue
+                b = text
+                off = len(b[:b.index('$0')].encode('utf-8')); b = b.replace('$0', '')
+                r = oracle.ask('complete', json.dumps({'text': b, 'offsets': [off]}))
+                got = set(x.split('|')[0] for x in ((r.get('complete') or [None])[0] or [])) if isinstance(r, dict) else set()
+                missing = [v for v in binders + ['x', 'y'] if v not in got]
+                if missing:
+                    probs.append('at the blank position after `%s` in %r completion does not offer %s, which are in scope there (offered: %s)' % (stmt % pat, b, missing, sorted(got)[:12]))
+    return n, probs
+
